@@ -163,6 +163,7 @@ pub struct Quirks {
     /// inside the AS can change segments; an unknown interface there is an unknown-ingress error)
     pub segment_change_judged_by_hop_field_ingress: bool,
     /// a hop field whose ingress (travel direction) is 0 passes the ingress check on any interface
+    /// (and its ingress router alert is then not honoured)
     pub zero_hop_ingress_is_wildcard: bool,
     /// child->peer and peer->child are accepted as SEGMENT-CHANGE pairs
     pub peer_pairs_in_segment_change_table: bool,
@@ -299,7 +300,7 @@ pub fn step_with(topo: &Topo, at: AsIdx, ingress: u16, pkt: &[u8], now: u32, lin
     // ingress router alert
     let in_alert_bit = if cons_dir { HF_ALERT_CONS_INGRESS } else { HF_ALERT_CONS_EGRESS };
     let eg_alert_bit = if cons_dir { HF_ALERT_CONS_EGRESS } else { HF_ALERT_CONS_INGRESS };
-    if ingress != 0 && hop.flags & in_alert_bit != 0 {
+    if ingress != 0 && hop.flags & in_alert_bit != 0 && !(q.zero_hop_ingress_is_wildcard && t_in != ingress) {
         p.hops[ch].flags &= !in_alert_bit;
         events.push(Event::Alert { egress: false });
         set_first(&mut first_reject, Verdict::Alert { egress: false, if_id: ingress });
